@@ -25,7 +25,8 @@ pub fn parse_world_module(world: &World, spec: &str, kind: u8) -> Option<ParsedM
 pub fn parse_world_module_at(world: &World, spec: &str, kind: u8, reload: bool) -> Option<ParsedMod> {
   match world.entry(spec, reload)? {
     Entry::Module { headers, .. } => {
-      let url = ModuleSpecifier::parse(spec).unwrap();
+      // the module is parsed under the final specifier the loader reports
+      let url = ModuleSpecifier::parse(world.final_specifiers.get(spec).map(|s| s.as_str()).unwrap_or(spec)).unwrap();
       let hm: Option<HashMap<String, String>> = headers.as_ref().map(|h| h.iter().cloned().collect());
       let (media, _) = resolve_media_type_and_charset_from_headers(&url, hm.as_ref());
       let content: Arc<[u8]> = Arc::from(world.content_of(spec, reload).unwrap());
@@ -79,8 +80,9 @@ pub fn spec_class(spec: &str) -> u64 {
   }
 }
 
-fn abs_entry(spec: &str, e: &Entry, pm: Option<&ParsedMod>, it: &mut Intern) -> Sx {
+fn abs_entry(spec: &str, e: &Entry, pm: Option<&ParsedMod>, it: &mut Intern, final_spec: Option<&String>) -> Sx {
   let sid = it.spec(spec);
+  let fid = final_spec.map(|f| it.spec(f)).unwrap_or(sid);
   match e {
     Entry::Missing => Sx::atoms([0]),
     Entry::Error => Sx::atoms([1]),
@@ -129,7 +131,7 @@ fn abs_entry(spec: &str, e: &Entry, pm: Option<&ParsedMod>, it: &mut Intern) -> 
         }
         Err(_) => (false, 0, Sx::L(vec![]), Sx::opt(None), 0),
       };
-      Sx::L(vec![Sx::A(4), Sx::A(sid), Sx::A(hr), Sx::A(ht), Sx::A(media_id(pm.media)), Sx::b(ok), Sx::A(mk), deps, tdep])
+      Sx::L(vec![Sx::A(4), Sx::A(fid), Sx::A(hr), Sx::A(ht), Sx::A(media_id(pm.media)), Sx::b(ok), Sx::A(mk), deps, tdep])
     }
   }
 }
@@ -154,12 +156,12 @@ pub fn abs_world_full(
 ) -> Sx {
   let mut resps = vec![];
   for (spec, e) in &world.entries {
-    let r = abs_entry(spec, e, parsed.get(spec), it);
+    let r = abs_entry(spec, e, parsed.get(spec), it, world.final_specifiers.get(spec));
     resps.push(Sx::L(vec![Sx::A(it.spec(spec)), r]));
   }
   let mut reloads = vec![];
   for (spec, e) in &world.reload_entries {
-    let r = abs_entry(spec, e, parsed_reload.get(spec), it);
+    let r = abs_entry(spec, e, parsed_reload.get(spec), it, world.final_specifiers.get(spec));
     reloads.push(Sx::L(vec![Sx::A(it.spec(spec)), r]));
   }
   let classes = Sx::L(
